@@ -156,6 +156,51 @@ theorem kf_likelihood_eq (invD : InvFn ℝ) (H : Mat ℝ m n) (R : Mat ℝ m m) 
   · rw [e1, e2, logDensity_formula invD _ _ _ hinv, logDensity_formula invD _ _ _ hinv, hd1, hd2]
   · rw [e1, logDensity_formula invD _ _ _ hinv, hd1]
 
+/-- One step of a Kalman filter history, as far as the covariance is concerned. -/
+inductive KFStep (n : Nat) where
+  | predict (F Q : Mat ℝ n n)
+  | correct (m : Nat) (H : Mat ℝ m n) (R : Mat ℝ m m)
+
+/-- the covariance after one step (`kfPredictCov` / `kfCorrectCov`, the functions tied to the code) -/
+noncomputable def kfCovStep (inv : (m : Nat) → Mat ℝ m m → Mat ℝ m m) (P : Mat ℝ n n) : KFStep n → Mat ℝ n n
+  | .predict F Q => kfPredictCov F P Q
+  | .correct m H R => kfCorrectCov (inv m) H R P
+
+/-- admissible steps: process noise PSD (singular allowed), measurement noise PD -/
+def KFStep.OK : KFStep n → Prop
+  | .predict _ Q => (toM Q).PosSemidef
+  | .correct _ _ R => (toM R).PosDef
+
+/-- History lift: after ANY sequence of predictions and corrections (any length, any models, any
+    measurement dimensions, measurements and means play no role) started from a PSD covariance, the
+    covariance the filter carries is positive semi-definite and symmetric.  The inverse routine only
+    has to invert the matrices that are invertible. -/
+theorem kf_history_cov_posSemidef (inv : (m : Nat) → Mat ℝ m m → Mat ℝ m m)
+    (hinv : ∀ (m : Nat) (S : Mat ℝ m m), IsUnit (toM S) → InvOn (inv m) S)
+    (steps : List (KFStep n)) (P0 : Mat ℝ n n) (hP0 : (toM P0).PosSemidef)
+    (hsteps : ∀ s ∈ steps, s.OK) :
+    (toM (steps.foldl (kfCovStep inv) P0)).PosSemidef ∧
+    (toM (steps.foldl (kfCovStep inv) P0))ᵀ = toM (steps.foldl (kfCovStep inv) P0) := by
+  have key : (toM (steps.foldl (kfCovStep inv) P0)).PosSemidef := by
+    induction steps generalizing P0 with
+    | nil => simpa using hP0
+    | cons s rest ih =>
+      simp only [List.foldl_cons]
+      apply ih
+      · cases s with
+        | predict F Q =>
+          have hQ : (toM Q).PosSemidef := hsteps (.predict F Q) (by simp)
+          simp only [kfCovStep]
+          have h := hP0.mul_mul_conjTranspose_same (toM F)
+          have e : toM (kfPredictCov F P0 Q) = toM F * toM P0 * (toM F)ᵀ + toM Q := by simp [kfPredictCov]
+          rw [e]; simpa using h.add hQ
+        | correct m H R =>
+          have hR : (toM R).PosDef := hsteps (.correct m H R) (by simp)
+          simp only [kfCovStep]
+          exact kf_cov_posSemidef (inv m) H P0 R hP0 hR (hinv m _ (kf_S_posDef H P0 R hP0 hR).2)
+      · intro s' hs'; exact hsteps s' (by simp [hs'])
+  exact ⟨key, by simpa using key.1.eq⟩
+
 /-- Non-vacuity: the hypotheses are jointly satisfiable for every PD pair — Mathlib's own inverse
     meets the contract `InvOn` — and a concrete PD instance exists (n = m = 1, P = 2, R = 3). -/
 theorem invOn_mathlib_inv (H : Mat ℝ m n) (P : Mat ℝ n n) (R : Mat ℝ m m)
